@@ -2,6 +2,9 @@
 """Regenerates MANIFEST.json from the table below (kept in one place so it stays valid)."""
 import json, subprocess
 CHECKS = {
+ "C17": dict(level="exploration", tech="no-panic / round-trip monitor: 14 parser targets run under catch_unwind in sharded processes built with overflow-checks + debug-assertions (the arithmetic sanitizer); shard-crash journal turns aborts into violations",
+             text="Generated hostile inputs (empty, boundary lengths around every fixed offset, boundary numerics, non-ASCII, very long, mutated valid encodings, hostile JSON leaves, authentic ciphertexts of hostile plaintexts) are fed to the real parsers; any panic/overflow/abort is a violation, and parse(format(x)) == x is checked where a formatter exists.",
+             note="Overflow is observed because the harness compiles /repo crates with overflow-checks; ant-cli's binary-only wallet module is compiled in via #[path] from the working tree.", ref="DESIGN.md §4 C17"),
  "C12": dict(level="exploration", tech="round-trip + golden-vector + hostile-input monitor over the real encoders/decoders (MessagePack and CBOR), exhaustive over the 8-kind tag table and 248 unknown tags; shard-crash journal turns aborts into violations",
              text="Random values of every record kind (with/without payment proofs) and every request/response variant are encoded and decoded by the real code; tag table and a committed golden corpus pin the wire form; ~250 hostile byte strings per case go through 17 decoders under catch_unwind in sharded child processes.",
              note="Golden vectors were generated from the pinned tree and are the trusted wire form; equality uses the types' PartialEq.", ref="DESIGN.md §4 C12"),
